@@ -330,6 +330,10 @@ def step (line : String) : String :=
       let level := (j.getObjValAs? Nat "indent_level").toOption.getD 2
       let st := (j.getObjValAs? Bool "emit_separating_tab").toOption.getD true
       (resJson (FuncKind.funcKindRT ir inl emit level st) irToJson).compress
+    | .ok "class_kind" =>
+      let ir := match j.getObjVal? "ir" with | .ok i => irOfJson i | _ => {}
+      let emit := (j.getObjValAs? Bool "emit").toOption.getD true
+      (resJson (ClassKind.classKindRT ir emit) irToJson).compress
     | .ok "unwrap" =>
       -- what `_set_name_and_type` (word_wrap on) reads back from wrapped, indented prose
       let t := (optStr j "text").getD []
